@@ -133,6 +133,149 @@ def build_cases(tier, L, r):
     return C
 
 
+# ------------------------------------------------------------------------------------------------
+# re-entrant callbacks: a container operation calls back into Python (key function, rich comparison, __hash__, __index__, __iter__/__next__,
+# __repr__, a generator feeding the operation) and the callback mutates the very container being operated on.  Whatever the result, the
+# Go process must survive.
+RE_PRELUDE = """N = [-1000000]
+def hook():
+    global L, L2, I, D, D2, S, S2
+    N[0] += 1
+    if %(cond)s:
+        %(action)s
+class K:
+    def __init__(self, v):
+        self.v = v
+    def __lt__(self, o):
+        hook()
+        return self.v < o.v
+    def __le__(self, o):
+        hook()
+        return self.v <= o.v
+    def __gt__(self, o):
+        hook()
+        return self.v > o.v
+    def __ge__(self, o):
+        hook()
+        return self.v >= o.v
+    def __eq__(self, o):
+        hook()
+        return isinstance(o, K) and self.v == o.v
+    def __ne__(self, o):
+        hook()
+        return not (isinstance(o, K) and self.v == o.v)
+    def __hash__(self):
+        hook()
+        return self.v
+    def __index__(self):
+        hook()
+        return self.v
+    def __len__(self):
+        hook()
+        return self.v
+    def __bool__(self):
+        hook()
+        return True
+    def __repr__(self):
+        hook()
+        return "K" + str(self.v)
+    def __str__(self):
+        hook()
+        return "k" + str(self.v)
+    def __iter__(self):
+        hook()
+        return iter([K(1), K(2)])
+    def __add__(self, o):
+        hook()
+        return K(self.v + (o.v if isinstance(o, K) else o))
+    def __radd__(self, o):
+        hook()
+        return K(self.v + o)
+def f(x):
+    hook()
+    return x.v if isinstance(x, K) else x
+def gen():
+    i = 0
+    while i < 4:
+        hook()
+        yield K(i + 10)
+        i += 1
+def genpairs():
+    i = 0
+    while i < 4:
+        hook()
+        yield ("g" + str(i), i)
+        i += 1
+def genints():
+    i = 0
+    while i < 4:
+        hook()
+        yield i + 65
+        i += 1
+def genstrs():
+    i = 0
+    while i < 4:
+        hook()
+        yield "s"
+        i += 1
+L = [K(3), K(1), K(4), K(1), K(5), K(9), K(2), K(6)]
+L2 = [K(3), K(1), K(4), K(1), K(5), K(9), K(2), K(6)]
+I = [3, 1, 4, 1, 5, 9, 2, 6]
+D = {}
+D2 = {}
+S = set()
+S2 = set()
+for i_ in range(8):
+    D["k" + str(i_)] = K(i_)
+    D2["k" + str(i_)] = K(i_)
+    S.add(K(i_))
+    S2.add(K(i_ + 4))
+N[0] = 0
+try:
+    %(op)s
+    print("done")
+except Exception:
+    print("exc")
+"""
+RE_ACTIONS = ['L.clear()', 'del L[:]', 'L.pop()', 'del L[0]', 'del L[-1]', 'del L[1:]', 'del L[-3:]', 'L.append(K(7))', 'L.extend([K(8)] * 40)', 'del L[::2]', 'L[:] = [K(0)]', 'L[2:] = []', 'L.reverse()', 'L.sort()', 'L *= 3', 'L *= 0',
+              'I.clear()', 'del I[1:]', 'I.extend([7] * 50)',
+              'D.clear()', 'D["z"] = 1', 'D.pop("k1", None)', 'del D["k2"]', 'D.update(D2)', 'for k_ in list(D): del D[k_]', 'for k_ in range(50): D[str(k_)] = k_', 'S -= S', 'S |= S2', 'S ^= S2', 'S.clear()', 'S.add(K(99))', 'S.discard(K(1))', 'S.pop()', 'S.update(S2)', 'S2.clear()', 'D2.clear()', 'L2.clear()']
+RE_OPS = ['L.sort(key=f)', 'L.sort()', 'L.sort(key=f, reverse=True)', 'I.sort(key=f)', 'sorted(L, key=f)', 'sorted(L)', 'min(L)', 'max(L)', 'sum(L, K(0))', 'L.index(K(2))', 'L.count(K(2))', 'L.remove(K(2))',
+          'K(2) in L', 'K(77) in L', 'L == L2', 'L != L2', 'L < L2', 'L[1:3] = gen()', 'L[::2] = gen()', 'L[::-1] = gen()', 'L.extend(gen())', 'L += gen()', 'L[:] = gen()', 'L[5:] = gen()', 'L * K(2)', 'L[K(1)]',
+          'L[K(0):K(2)]', 'L[K(0):K(6):K(2)]', 'del L[K(0):K(3)]', 'del L[K(1)]', 'L[K(1)] = 5', 'L[K(0):K(2)] = [1, 2, 3]', 'L.pop(K(0))', 'list(L)', 'tuple(L)', 'repr(L)', 'str(L)', 'print(L)',
+          'for x in L: hook()', '[hook() for x in L]', 'for x in I: hook()', 'any(L)', 'all(L)', 'list(map(f, L))', 'list(filter(f, L))', 'list(zip(L, gen()))', 'dict(zip(L, L))', 'set(L)', 'list(enumerate(L))',
+          'list(reversed(L))', 'L.copy()', 'L + L2', 'L.extend(L)', 'L += L', 'L.extend(K(0))', 'a, b, *c = gen()', 'f(*gen())', 'I[1:3] = genints()', 'I.extend(genints())',
+          'D[K(1)]', 'K(1) in D', 'D.get(K(1))', 'D.pop(K(1))', 'D["k1"]', '"k1" in D', 'D.get("k1")', 'D.pop("k1")', 'D.update(genpairs())', 'D == D2', 'D != D2', 'for k in D: hook()', 'for k in D: D.pop(k, None)', 'for k, v in D.items(): hook()', 'for v in D.values(): hook()',
+          'repr(D)', 'str(D)', 'print(D)', 'D.setdefault("k5", 0)', 'dict(D)', 'list(D.items())', 'list(D.values())', 'D["n"] = 1', 'del D["k2"]', 'sorted(D, key=f)', 'sorted(D.values())', 'max(D.values())', 'K(3) in D.values()', 'dict(D, **D2)', 'f(**D)', '"%(k1)s" % D',
+          'dict(genpairs())', 'list(D.keys())', 'sorted(D)', '{k: 1 for k in D}', 'D.update(D2)', 'D.copy()',
+          'K(1) in S', 'S.add(K(9))', 'S.remove(K(2))', 'S.discard(K(2))', 'S | S2', 'S & S2', 'S - S2', 'S ^ S2', 'S == S2', 'S <= S2', 'S < S2', 'repr(S)', 'for x in S: hook()', 'S.update(gen())', 'set(gen())', 'frozenset(gen())',
+          'S |= S2', 'S &= S2', 'S -= S2', 'S ^= S2', 'sorted(S)', 'S.copy()', '{x for x in S}',
+          '"%s %r" % (K(1), K(2))', 'str(K(1))', '"{} {}".format(K(1), K(2))', '"-".join(genstrs())', '"-".join(I)', 'bytes(genints())', 'bytes(L)', 'bytes(I)', 'range(K(0), K(5), K(1))', 'list(range(K(3)))', 'len(K(3))',
+          'tuple(gen())', 'list(gen())', 'sorted(gen())', 'min(gen())', 'max(gen(), default=0)', 'sum(genints())', 'any(gen())', 'all(gen())', 'list(K(0))', 'K(1) + K(2) + 3', 'sum([K(1), K(2)], K(0))',
+          'bool(K(0))', 'not K(0)', 'K(1) if K(0) else K(2)', 'hash(K(1))', '{K(1): 2}[K(1)]', 'isinstance(K(1), K)', 'divmod(K(1), K(2))', 'I * K(3)', '"ab" * K(2)', '"abcdef"[K(1):K(4)]', '(1, 2, 3)[K(1)]', 'b"abc"[K(1)]']
+
+
+def reentrant_programs(tier, r):
+    out = []
+    combos = []
+    for op in RE_OPS:
+        for act in RE_ACTIONS:
+            for trig in (1, 2, 3, 5):
+                for burst in (False, True):
+                    combos.append((op, act, trig, burst))
+    if tier == 'quick':
+        # every operation with every action at least once; the trigger position and the burst mode are sampled
+        sel = []
+        for op in RE_OPS:
+            for act in RE_ACTIONS:
+                sel.append((op, act, r.choice((1, 2, 3, 5)), r.random() < 0.5))
+        combos = sel
+    for i, (op, act, trig, burst) in enumerate(combos):
+        cond = ('%d <= N[0] < %d' % (trig, trig + 3)) if burst else ('N[0] == %d' % trig)
+        out.append({'id': 'q%d' % i, 'src': RE_PRELUDE % {'cond': cond, 'action': act, 'op': op}, 'reop': op, 'react': act, 'trig': trig, 'burst': burst})
+    return out
+
+
 def limit_mem():
     try:
         resource.setrlimit(resource.RLIMIT_AS, (6 << 30, 6 << 30))
@@ -228,20 +371,33 @@ def run(tier, rep):
     n = 400 if tier == 'quick' else 6000
     for i in range(n):
         progs.append({'id': 'p%d' % i, 'src': progen.raw_program(r, maxdepth=r.choice([2, 3, 4]), nstmts=r.randrange(2, 6))})
+    reprogs = reentrant_programs(tier, r)
+    remeta = {p['id']: p for p in reprogs}
+    progs += [{'id': p['id'], 'src': p['src']} for p in reprogs]
     pres, _ = common.run_vrun('exec', progs, timeout_case=30)
+    re_out = {}
     for p in progs:
         g = pres.get(p['id'])
+        rm = remeta.get(p['id'])
         if g is None or g.get('timeout'):
-            rep.inconc('program %s: no result' % p['id'])
+            rep.inconc('program %s: no result%s' % (p['id'], ' (%s with %s)' % (rm['reop'], rm['react']) if rm else ''))
             continue
         rep.evaluations += 1
+        if rm:
+            k = 'panic' if g.get('panic') or g.get('crash') else (g.get('out') or '').strip().split('\n')[-1][:40] or ('uncaught ' + str(g.get('exc')))
+            re_out[k] = re_out.get(k, 0) + 1
+            nontriv.add(('reentrant', rm['reop'], rm['react'].split('.')[0].split('[')[0].split(' ')[-1], k))
         if g.get('panic') or g.get('crash') or g.get('harness_panic'):
             msg = str(g.get('panic') or g.get('harness_panic') or (re.search(r'fatal error: ([^\n]*)', g.get('log_tail', '')) or [None, 'abort'])[1])
-            rep.violation('C10|program|panic:%s' % normmsg(msg), {'case': p, 'got': {k: common.short(v, 800) for k, v in g.items()}})
+            if rm:
+                rep.violation('C10|reentrant|op=%s|panic:%s' % (rm['reop'], normmsg(msg)), {'case': p, 'operation': rm['reop'], 'callback_action': rm['react'], 'trigger_call': rm['trig'], 'burst': rm['burst'],
+                                                                                      'got': {k: common.short(v, 1500) for k, v in g.items()}})
+            else:
+                rep.violation('C10|program|panic:%s' % normmsg(msg), {'case': p, 'got': {k: common.short(v, 800) for k, v in g.items()}})
     rep.nontrivial = nontriv
     rep.samples = [{'kind': c['kind'], 'callable': sig_target(c), 'receiver': c.get('recv'), 'args': (expand(c) or [[]])[min(3, len(expand(c)) - 1)], 'kw': c.get('kw')} for c in C[:6]]
     rep.rule = ('every callable in builtins (%d) and in the attribute table of the type of every universe value (bound to a receiver and unbound), every unary/binary/ternary operator entry point of the py package and %d source snippets compiled and run by the VM, '
-                'x all argument tuples of arity 0-2 over a universe of %d values (huge values only sampled in quick) and arity 3 over a %d-value sub-universe, plus keyword forms; plus generated programs; '
-                'non-trivial = distinct (callable, outcome class) pairs observed' % (len(L['builtins']), len([s for s in L['snippets'] if s]), len(L['universe']), 14))
-    rep.extra = {'calls': ncalls, 'batches': len(C), 'batches_redone': len(redo), 'outcome_classes': dict(sorted(outcomes.items(), key=lambda kv: -kv[1])[:25]), 'programs': len(progs), 'universe': L['universe']}
+                'x all argument tuples of arity 0-2 over a universe of %d values (huge values only sampled in quick) and arity 3 over a %d-value sub-universe, plus keyword forms; plus generated programs; plus re-entrant callback programs: %d container operations x %d mutations of the container performed by the callback (key function, rich comparison, __hash__, __index__, __iter__, __repr__, feeding generator) x trigger position; '
+                'non-trivial = distinct (callable, outcome class) pairs observed' % (len(L['builtins']), len([s for s in L['snippets'] if s]), len(L['universe']), 14, len(RE_OPS), len(RE_ACTIONS)))
+    rep.extra = {'calls': ncalls, 'batches': len(C), 'batches_redone': len(redo), 'outcome_classes': dict(sorted(outcomes.items(), key=lambda kv: -kv[1])[:25]), 'programs': len(progs), 'reentrant_programs': len(reprogs), 'reentrant_outcomes': re_out, 'universe': L['universe']}
     rep.assumptions = ['pure CPU time (e.g. sum(range(2**62))) is inconclusive; process aborts and Go panics are violations', 'workers run with GOMEMLIMIT=3GiB; cwd is a scratch directory']
